@@ -14,10 +14,10 @@ import (
 var histBuckets = []string{"bkt", "other-bucket"}
 
 // names representable as files (no name is a directory of another one)
-var namesRepresentable = []string{"a.txt", "b", "dir/x", "dir/sub/y", "sp ace.bin", "uni-éß", "pct%41%2F", "dots..x", "q-r/s", "zz/o/file", "UPPER", "plus+eq=amp&"}
+var namesRepresentable = []string{"a.txt", "b", "dir/x", "dir/sub/y", "sp ace.bin", "uni-éß", "pct%41%2F", "dots..x", "q-r/s", "zz/o/file", "UPPER", "plus+eq=amp&", "bad" + badByteMarker + "utf8"}
 
 // names that trap the listing and the filesystem mapping (memory store only)
-var namesTricky = []string{"a", "a.txt", "a/b", "a/b/c", "a-b/c", "a0", "b/", "dir/o/file", "x.emumeta", "ÿþ", "a/"}
+var namesTricky = []string{"a", "a.txt", "a/b", "a/b/c", "a-b/c", "a0", "b/", "dir/o/file", "x.emumeta", "ÿþ", "a/", "a" + badByteMarker}
 
 var payloads = [][]byte{{}, []byte("x"), []byte("hello world"), {0, 255, 0, 1, 2, 254}, []byte(strings.Repeat("0123456789abcdef", 9)), []byte("\x1f\x8b not really gzip")}
 
